@@ -78,12 +78,23 @@ func newSys(backoff time.Duration, initial []int) *sys {
 	return s
 }
 
+// upsert: w < 0 means "no Weight option" (a new server gets the default weight 1, an
+// existing one keeps its configured weight).
 func (s *sys) upsert(i, w int) error {
 	s.current = i
-	err := s.rb.UpsertServer(su(i), roundrobin.Weight(w))
+	var err error
+	if w < 0 {
+		err = s.rb.UpsertServer(su(i))
+	} else {
+		err = s.rb.UpsertServer(su(i), roundrobin.Weight(w))
+	}
 	s.current = -1
 	if err == nil {
-		s.configured[i] = w
+		if w >= 0 {
+			s.configured[i] = w
+		} else if s.configured[i] == 0 {
+			s.configured[i] = 1
+		}
 		s.adjusted = false
 	}
 	return err
@@ -281,6 +292,8 @@ func alphabet(backoff time.Duration, tier string) ([]string, []opDesc) {
 			names = append(names, fmt.Sprintf("Upsert(s%d,%d)", i+1, w))
 			descs = append(descs, opDesc{kind: 2, srv: i, w: w})
 		}
+		names = append(names, fmt.Sprintf("Upsert(s%d)", i+1)) // repeated add without a weight
+		descs = append(descs, opDesc{kind: 2, srv: i, w: -1})
 	}
 	for i := 0; i < nServers; i++ {
 		names = append(names, fmt.Sprintf("Remove(s%d)", i+1))
